@@ -174,6 +174,12 @@ func eval1(t *Term, m map[string]uint64, memo map[int]uint64) (uint64, bool) {
 		return b2u(math.IsInf(f(args[0]), 0)), true
 	case OFFloor:
 		return fb(math.Floor(f(args[0]))), true
+	case OFTrunc:
+		return fb(math.Trunc(f(args[0]))), true
+	case OFCeil:
+		return fb(math.Ceil(f(args[0]))), true
+	case OFSqrt:
+		return fb(math.Sqrt(f(args[0]))), true
 	case OFFromSBV:
 		return fb(float64(sext(args[0], w))), true
 	case OFFromUBV:
